@@ -595,6 +595,13 @@ def check_c08_body(v, d, quick, fpipe):
     if p.returncode != 0:
         raise Infra("rundrv cases failed: %s" % p.stderr[-2000:])
     ncases = int(p.stdout.strip().splitlines()[-1])
+    # semantically plausible statements combining every feature of the language, on empty / small / large stores
+    import bqlsink
+    sink = bqlsink.cases(vlib.seed() * 31 + 5, 1500 if quick else 30000)
+    with open(cases, "a") as fh:
+        for c in sink:
+            fh.write(json.dumps(c) + "\n")
+    ncases += len(sink)
     trace = run_batches(d, cases, ncases, v, batch=400 if quick else 1000, workers=4 if quick else 10)
     res = validate("RunTrace", gen, trace, per_chunk=15000)
     evs = vlib.read_ndjson(trace)
@@ -621,7 +628,8 @@ def check_c08_body(v, d, quick, fpipe):
         "traces_validated_against_impl": 1,
         "layer_b_lexpipe": pipe,
         "derivation_machine": dinfo, "runs": ncases, "runs_by_source": srcs, "runs_by_outcome_and_stage": by,
-        "stores": ["populated (3 graphs, 8 near-miss triples in 2 of them)", "empty"],
+        "stores": ["populated (3 graphs, 8 near-miss triples in 2 of them)", "empty", "large (278 / 41 / 0 triples: more rows than twice the processors)"],
+        "sink_statements": len(sink), "sink_with_rows": sum(1 for e in evs if e["src"] == "sink" and e.get("rows", 0) > 0),
         "rejected_events": len(res["rejects"]), "layer_b_drift_leak_predicted_not_observed": drift,
         "evaluations": ncases, "distinct_nontrivial": len(set(e["text"] for e in evs if e["stage"] != "parse")),
         "rule": "grammar-generated statements (TLC derivation machine, both alternative orders) with plain and hostile texts, one hostile text at a time per (rule, value token kind), their prefixes, prefix + one token, token mutations, statement + trailing statement, all token-kind sequences up to length 3 (quick: seeded 2% of length 3), seeded random bytes / fragments / byte mutations; non-trivial = distinct texts that passed the parser and reached planning or execution",
